@@ -86,6 +86,7 @@ type wgen struct {
 	usedSt  bool
 	reads   int
 	noLit   int // > 0: leaves are never literals (the expression is then not a constant)
+	noField int // > 0: leaves are never this.… fields
 }
 
 func (g *wgen) line(format string, args ...interface{}) {
@@ -132,7 +133,7 @@ func (g *wgen) expr(t wtype, depth int) string {
 				return "args.a"
 			}
 		case 2:
-			if t == tU64 && r.Bool() {
+			if t == tU64 && r.Bool() && g.noField == 0 {
 				return "this.acc"
 			}
 		}
@@ -283,6 +284,11 @@ func (g *wgen) stmtCall() {
 		g.stmtRead()
 		return
 	}
+	// The argument never reads a this.… field: the callee may write the field, and a call that is
+	// re-issued after a suspension evaluates its arguments again (statement.go
+	// writeStatementAssign), so such a program would be split-dependent by its own meaning.
+	g.noField++
+	defer func() { g.noField-- }()
 	k := g.minSub + g.rng.Intn(g.nsub-g.minSub)
 	if g.rng.Chance(1, 3) {
 		// the "=?" idiom of std/gzip: the callee's suspension is re-yielded by hand
